@@ -43,7 +43,7 @@ theorem pendOkW_append_close {P : List Pend} {ns na : Nat} {rel : List Nat} {nex
   have hslot : slotOf p = none := by
     unfold slotOf
     rcases hk with ⟨f, hk1, _⟩ | ⟨hk1, _⟩ <;> rw [hk1]
-  refine ⟨?_, ?_, ?_, ?_⟩
+  refine ⟨?_, ?_, ?_, ?_, ?_⟩
   · rw [List.map_append, List.nodup_append]
     refine ⟨h.tags, by simp, ?_⟩
     intro a ha b hb hab
@@ -69,10 +69,16 @@ theorem pendOkW_append_close {P : List Pend} {ns na : Nat} {rel : List Nat} {nex
     · simp at hq; subst hq
       unfold sidOf at hj
       rcases hk with ⟨f, hk1, _⟩ | ⟨hk1, _⟩ <;> rw [hk1] at hj <;> simp at hj <;> omega
+  · intro q hq
+    rcases List.mem_append.mp hq with hq | hq
+    · exact h.sids q hq
+    · simp at hq; subst hq
+      unfold sidOf
+      rcases hk with ⟨f, hk1, _⟩ | ⟨hk1, _⟩ <;> rw [hk1] <;> rfl
 
 theorem pendOkW_counters {P : List Pend} {ns na : Nat} {rel : List Nat} {next : Nat} (h : PendOkW P ns na rel next)
     {ns' na' : Nat} (h1 : ns ≤ ns') (h2 : na ≤ na') : PendOkW P ns' na' rel next := by
-  refine ⟨h.tags, h.slots, ?_, h.minted⟩
+  refine ⟨h.tags, h.slots, ?_, h.minted, h.sids⟩
   intro p hp
   have := h.shape p hp
   cases hk : p.kind with
@@ -168,7 +174,7 @@ theorem sim_delete {cfg : Cfg} {d d' : RState} {m : Mon} {o : Obs} (hs : Sim cfg
         have hba : bookAnswer cfg (effFaults cfg m) m.now (tagOf m (.delete ref u)) m.tbl m.pend (.delete ref u) (.code 204) =
             (monUpd m.tbl (sname i) mDead, m.pend) := by
           simp [bookAnswer, hs.stateful, hname, ha, hlv, hent]; rfl
-        apply sim_one_op hs hmo rfl hG rfl rfl rfl rfl hinv2 (pendOkW_counters hs.pok.weak (Nat.le_refl _) (Nat.le_succ _))
+        apply sim_one_op hs hmo (Or.inl rfl) rfl hG rfl rfl rfl rfl hinv2 (pendOkW_counters hs.pok.weak (Nat.le_refl _) (Nat.le_succ _))
           (fun j _ => ⟨rfl, rfl⟩) (fun p hp j _ _ => hs.pok.keep hp)
           (tblX := monUpd m.tbl (sname i) mDead)
         · rw [hba]; show bookDone _ _ _ [] = _; simp [bookSlots, bookDone, hs.pend]
@@ -237,7 +243,7 @@ theorem sim_delete {cfg : Cfg} {d d' : RState} {m : Mon} {o : Obs} (hs : Sim cfg
         have hnsP : ∀ j, nsOf (d.pend ++ [(Pend.mk (Tag.d (d.nasync + 1)) (PendKind.del i (!e.closing)))]) j = nsOf d.pend j ∧
             nrOf (d.pend ++ [(Pend.mk (Tag.d (d.nasync + 1)) (PendKind.del i (!e.closing)))]) j = nrOf d.pend j :=
           fun j => ⟨nsOf_append_other _ _ _ rfl, nrOf_append_other _ _ _ rfl⟩
-        apply sim_one_op hs hmo rfl hG rfl rfl rfl rfl hinv2
+        apply sim_one_op hs hmo (Or.inl rfl) rfl hG rfl rfl rfl rfl hinv2
           (pendOkW_append_close hs.pok.weak (Pend.mk (Tag.d (d.nasync + 1)) (PendKind.del i (!e.closing))) hi (Or.inl ⟨_, rfl, rfl⟩))
           (fun j _ => hnsP j)
           (tblX := monUpd m.tbl (sname i) (fun a => if a.life = .live then mDying a else a))
